@@ -15,6 +15,7 @@ import GocoinV.Proofs.C14Wif
 import GocoinV.Proofs.C14Getpass
 import GocoinV.Proofs.C14Xpub
 import GocoinV.Proofs.C14Lookup
+import GocoinV.Proofs.C14Store
 namespace GocoinV.Props.C14
 open GocoinV Proofs.C14 HD WalletKeys
 
@@ -653,6 +654,72 @@ theorem address_lookup_dispatch (C : WalletCrypto) (c : Config) (keys : List Key
   · simp [addressToKeyIdx, e]
   · simp [addressToKeyIdx, e, hl]
   · simp [addressToKeyIdx, e, hl]
+
+/-! ### the key store over one invocation: "the private key the wallet LATER signs with"
+
+`keys []*btc.PrivateAddr` lives as long as the process; `main()` strings several operations together in one run
+(`-sign A -msg M -send …`: make_wallet, sign_message, make_wallet AGAIN — which appends a second copy of every record
+behind the first —, then sign_tx), and every lookup returns a pointer into that list. Model/WalletKeysStore.lean. -/
+
+/-- The facts about the CURRENT source the store model rests on, regenerated by gen_c14 (store.go) on every run:
+    no function from which the process goes on holds (or reaches) a write to the key bytes of a stored record — the one
+    writer, cleanExit, ends the process —; `keys` is only ever assigned by `keys = append(keys, rec)` in load_others and
+    make_wallet; the three index lookups return the first match. An edit that makes any operation wipe, overwrite or
+    re-use the bytes of a key that stays in the list (a `defer sys.ClearBuffer(k.Key)` on a looked-up record, a helper
+    doing it to its parameter, a `keys[i] = …`) changes these lists and this theorem stops checking. -/
+theorem key_store_source_facts :
+    Gen.WalletKeyStoreFacts.keyWritersLive = [] ∧
+    (∀ f ∈ Gen.WalletKeyStoreFacts.keyWritersDirect, f ∈ Gen.WalletKeyStoreFacts.processEnders) ∧
+    (∀ f ∈ Gen.WalletKeyStoreFacts.keysAssigners, f ∈ ["load_others", "make_wallet"]) ∧
+    Gen.WalletKeyStoreFacts.keysAssignsAreAppends = true ∧
+    Gen.WalletKeyStoreFacts.lookupsReturnFirstMatch = true := by decide
+
+/-- Every operation of a session signs / exports with the key of the listed address, whatever came before it in the
+    same process: for ANY sequence of operations after the first make_wallet (further make_wallet calls, message
+    signatures, transaction signatures, dumps, in any order and number), the records each operation uses — index and
+    CURRENT key bytes — are exactly those the same operation finds in a list derived once and never touched
+    (`pureUse`: the lookups of `address_is_signing_key*` on the fresh list), provided no function the session is made of
+    writes a stored key (`Quiet wipers`). The second make_wallet's copies never answer a lookup. -/
+theorem session_signs_with_listed_key (wipers : List String) (hq : Store.Quiet wipers)
+    (C : WalletCrypto) (c : Config) (fresh : List KeyRec) (junk : Bytes) (ops : List Store.Op) :
+    (Store.run wipers C c fresh junk [] (.makeWallet :: ops)).2 = [] :: ops.map (Store.pureUse C c fresh) := by
+  have h := (Store.run_quiet wipers hq C c fresh junk ops ([] ++ fresh) ⟨[], by simp, by simp⟩).1
+  simp only [Store.run, Store.step]
+  rw [h]
+
+/-- … and this holds of the current source: the generated list of live key writers is quiet. -/
+theorem session_signs_with_listed_key_now (C : WalletCrypto) (c : Config) (fresh : List KeyRec) (junk : Bytes)
+    (ops : List Store.Op) :
+    (Store.run Gen.WalletKeyStoreFacts.keyWritersLive C c fresh junk [] (.makeWallet :: ops)).2 =
+      [] :: ops.map (Store.pureUse C c fresh) :=
+  session_signs_with_listed_key _ (by unfold Store.Quiet; decide) C c fresh junk ops
+
+/-- What the list looks like at any point of a quiet session: the fresh records repeated once per make_wallet call —
+    so `-l` inside a combined run prints the list that many times (observed on the real binary), and the keys in it are
+    the derived ones. -/
+theorem session_store_is_repeated_list (wipers : List String) (hq : Store.Quiet wipers)
+    (C : WalletCrypto) (c : Config) (fresh : List KeyRec) (junk : Bytes) (ops : List Store.Op) :
+    (Store.run wipers C c fresh junk [] (.makeWallet :: ops)).1 =
+      (List.replicate (ops.count .makeWallet + 1) fresh).flatten := by
+  have h := (Store.run_quiet wipers hq C c fresh junk ops ([] ++ fresh) ⟨[], by simp, by simp⟩).2
+  simp only [Store.run, Store.step]
+  rw [h]
+  simp [List.replicate_succ]
+
+/-- The hypothesis is not decoration — the store model is sensitive to exactly the seeded class: if sign_message wipes
+    the record it signed with, then in `make_wallet; sign_message A; make_wallet; sign_tx [script of A]` the
+    transaction is signed with the junk, not with the key of A (first-match lookup still returns the first record). -/
+example :
+    let C : WalletCrypto := { sha256 := id, shaHash := id, hash160 := id, hmac512 := fun _ b => b, pbkdf2 := fun _ b => b, scrypt := fun _ _ => none }
+    let c : Config := { waltype := 3, hdpath := [], bip39wrds := 0, usescrypt := 0, hdsubs := 1, keycnt := 1,
+                        testnet := false, litecoin := false, atype := .bech32, secretSeed := [] }
+    let k : KeyRec := { priv := [7], pubkey := [2, 9], h160 := List.replicate 20 5, wif := [], p2kh := [], listed := [], label := [], listLabel := [] }
+    let scr : Bytes := [0x00, 0x14] ++ List.replicate 20 5
+    (Store.run [] C c [k] [0xee] [] [.makeWallet, .signTx [scr], .makeWallet, .signTx [scr]]).2
+        = [[], [some (0, [7])], [], [some (0, [7])]] ∧
+    (Store.run ["sign_tx"] C c [k] [0xee] [] [.makeWallet, .signTx [scr], .makeWallet, .signTx [scr]]).2
+        = [[], [some (0, [7])], [], [some (0, [0xee])]] := by decide
+
 
 /-- Determinism. That equal inputs give equal wallets is true BY CONSTRUCTION of a model that is a function
     (that half is congruence and carries no content beyond "nothing else — time, randomness, environment — is an
